@@ -2,10 +2,13 @@
 // or a returned error: never a panic, never two responses, never a continuation
 // into the grant logic after an error was already answered.
 //
-// Four bounded-exhaustive grammars (engine E1), all executed on the real code:
+// Bounded-exhaustive grammars (engine E1), all executed on the real code:
 //
 //	(a) req      HTTP request deviations per endpoint x {Provider router, LegacyServer
 //	             router, exported grant handler called directly}
+//	(a3) resp    histories authorize -> login -> callback over response_type x
+//	             response_mode x scenario x failing storage call, both routers
+//	             (resp_test.go)
 //	(b) doc      JSON / JWT document shape grammar fed to every decoder type, to
 //	             oidc.ParseToken, to every generic verifier (signed and unsigned) and,
 //	             signed with the provider's / the client's own key, to every token
@@ -16,6 +19,10 @@
 //	(c) hostile  scripted provider answers (status x body shape x member shape) to
 //	             every client side helper, inside a synctest bubble with a fake-time
 //	             context deadline
+//	(c2) hostile-num  every numeric member of every answer at the numeric corner
+//	             values, consumed by the call chains of the example clients
+//	             (device authorization -> poll with the answered interval, ...)
+//	             (chain_test.go)
 //
 // The oracle is written from the statement: no panic; at most one WriteHeader;
 // after a status >= 400 no further storage call; a JSON body is exactly one JSON
@@ -419,13 +426,14 @@ func clip(s string, n int) string {
 
 func TestCheck(t *testing.T) {
 	c := engine.Start(t, "C09")
-	c.SetRule("E1, three parts. req: per (endpoint x entry) the baseline request and every <=k simultaneous deviations over method, content type, body mangling, Authorization header, grant_type string, added parameter, and one value-deviation slot per baseline parameter. doc: per sink (decoder type / ParseToken / verifier signed+unsigned / token consuming endpoint) every top-level shape of V and every <=k member deviations (member := absent | v in V) of the valid document, member list derived from the json tags of the sink's Go type. hostile: per client helper the full product status x body shape, plus every <=k member deviations of the valid answer. tok: full product (place that accepts a token / code / assertion) x entry x token-string alphabet T (unissued base64url of n bytes, strings sealed under the provider's crypto key with a plaintext that is not id:subject, prefixes and surface mutations of real tokens, dot skeletons, real JWTs with a malformed header / payload / signature segment, JWS JSON serialisations, tokens of other kinds); tok-pairs: two places of one request, T' x T'; tok-lib: T to every library verifier / parser / decrypter; tok-hostile: T as id_token / access_token / refresh_token of an otherwise honest token response to every client helper of the token endpoint. distinct = (part, oracle rule, observed outcome class)")
+	c.SetRule("E1, three parts. req: per (endpoint x entry) the baseline request and every <=k simultaneous deviations over method, content type, body mangling, Authorization header, grant_type string, added parameter, and one value-deviation slot per baseline parameter. doc: per sink (decoder type / ParseToken / verifier signed+unsigned / token consuming endpoint) every top-level shape of V and every <=k member deviations (member := absent | v in V) of the valid document, member list derived from the json tags of the sink's Go type. hostile: per client helper the full product status x body shape, plus every <=k member deviations of the valid answer. tok: full product (place that accepts a token / code / assertion) x entry x token-string alphabet T (unissued base64url of n bytes, strings sealed under the provider's crypto key with a plaintext that is not id:subject, prefixes and surface mutations of real tokens, dot skeletons, real JWTs with a malformed header / payload / signature segment, JWS JSON serialisations, tokens of other kinds); tok-pairs: two places of one request, T' x T'; tok-lib: T to every library verifier / parser / decrypter; tok-hostile: T as id_token / access_token / refresh_token of an otherwise honest token response to every client helper of the token endpoint. resp: histories authorize [-> login] -> callback [-> callback] over response_type x response_mode x scenario x fault position x fault kind x router x client/redirect x method x state x session, every request of the history judged (one WriteHeader, nothing behind a complete body, no storage call after an error answer). hostile-num: every numeric member (found by reflection) of every provider answer x numeric corner alphabet, consumed by helper chains (DeviceAuthorization -> DeviceAccessToken with the answered interval, token source twice, exchange -> refresh) x token endpoint scripts x verifier configurations, 10 min fake-time deadline. distinct = (part, oracle rule, observed outcome class)")
 	c.Assume(
 		"refstore is a correct storage (DESIGN §1.4); panics are attributed to the innermost /repo frame",
 		"a handler that writes nothing (net/http then sends 200 with an empty body) counts as one well-formed response",
 		"a client helper returning (nil, nil) is recorded as outcome nil-nil and not judged (the statement only excludes panics and non-termination)",
 		"entry 'direct' calls the exported grant handlers op.CodeExchange / RefreshTokenExchange / ClientCredentialsExchange / JWTProfile / TokenExchange / DeviceAccessToken with the provider as Exchanger, i.e. without the form pre-parse of op.Exchange",
 		"time: every execution runs in a synctest bubble at Epoch+1s; helper calls get a 10 min fake-time deadline",
+		"part resp: fault positions per scenario are bounded by the observed number of storage calls of the final request + 2; part hostile-num: the scripted provider takes 100 ms of fake time per call and at most 20000 calls per execution",
 	)
 	walls := map[string]float64{}
 	for _, p := range []struct {
